@@ -12,6 +12,10 @@ R03.2 "for any alignment of data, keys and tweak": no alignment-demanding instru
       operand other than movdqu/movups/lddqu; (v)movdqa / (v)movaps / (v)movnt*) addresses memory through any of
       the five pointer arguments (key2, key1, tweak, in, out) - aligned accesses go to the function's own
       (explicitly aligned) stack frame and to constant tables only.
+R03.5 "in place and out of place": with the input and output pointers equated, no load through the input argument
+      reads bytes that a store through the output argument has already written on some path to it (lib/inplace.py:
+      symbolic linear address forms, pointers advanced in lockstep stay related across loop heads); pairs whose
+      symbolic parts differ are not judged.
 R03.3 every XTS body is reached: each of the 8 dispatchers offers an sse, an avx and a vaes candidate and every
       candidate has the 6-argument signature taken from aes/aes_xts.c (anchor / instance floor).
 Positive control: under len in [16,31] the same analysis does reach accesses through both buffers in every body.
@@ -23,6 +27,7 @@ import align
 import build
 import c19
 import cands
+import inplace
 import ir
 import par
 import valset
@@ -125,6 +130,25 @@ def worker(lib, objname, extra):
                         seen |= set(h)
         if seen != set(bufs):
             out["control_fail"].append("%s: with len in [16,31] only %s of the buffers %s are seen accessed" % (name, sorted(seen), sorted(bufs)))
+        # R03.5 in-place hazard
+        inr = [r for r, n_ in bufs.items() if n_ == "in"]
+        outr = [r for r, n_ in bufs.items() if n_ == "out"]
+        if len(inr) == 1 and len(outr) == 1:
+            out["ip_bodies"] = out.get("ip_bodies", 0) + 1
+            try:
+                ipr = inplace.analyse(f, inr[0], outr[0], p1)
+                out["ip_pairs"] = out.get("ip_pairs", 0) + ipr.compared
+                if ipr.hazards:
+                    l, st_, d = ipr.hazards[0]
+                    out["findings"].append({"rule": "R03.5", "obj": objname, "function": name, "construct": "in-place",
+                                            "message": "`%s` reads the input at an address that `%s` (%s) has already written through the output pointer when in == out (%s; %d such pair(s)): an in-place call processes its own output instead of the caller's data" % (l.text.strip(), st_.text.strip(), o.line_of(key[1], st_.addr), d, len(ipr.hazards)),
+                                            "loc": o.line_of(key[1], l.addr) or "%s+%#x" % (objname, l.addr)})
+                else:
+                    out["ip_ok"] = out.get("ip_ok", 0) + 1
+            except RuntimeError as e:
+                out["broken"].append(str(e))
+        else:
+            out["broken"].append("%s: in/out arguments not identified by name (%r)" % (name, bufs))
         # R03.2
         nb = 0
         for i in align.sinks(f):
@@ -172,12 +196,14 @@ def run(chk):
         chk.obligation("R03.3", ok, key=("families", iface), sample={"interface": iface, "families": sorted(fams[iface])})
         if not ok:
             chk.broke("dispatcher of %s offers only %s" % (iface, sorted(fams[iface])))
+    nbind = cands.binding_rule(chk, "R03.4", lib, ['_XTS_AES_'])
+    chk.floor("implementations checked for binding ownership", nbind, 1)
     objs = sorted({lib._by_name[c][0] for c in cand if c in lib._by_name})
     res = par.map_objects(lib, worker, objs, extra={"cand": cand})
     tot = collections.Counter()
     for objname in sorted(res):
         r = res[objname]
-        for k in ("bodies", "ins_reachable", "mem_reachable", "aligned_sinks", "ptr_accesses", "r031_ok", "r031_bad", "r032_ok", "r032_bad"):
+        for k in ("bodies", "ins_reachable", "mem_reachable", "aligned_sinks", "ptr_accesses", "r031_ok", "r031_bad", "r032_ok", "r032_bad", "ip_bodies", "ip_ok", "ip_pairs"):
             tot[k] += r.get(k, 0)
         for b in r["broken"]:
             chk.broke(b)
@@ -190,6 +216,9 @@ def run(chk):
                 chk.samples.append(dict(rule="R03.1", **s))
     chk.obligations["R03.1"] = [tot["bodies"], tot["r031_ok"]]
     chk.obligations["R03.2"] = [tot["bodies"], tot["r032_ok"]]
+    chk.obligations["R03.5"] = [tot["ip_bodies"], tot["ip_ok"]]
+    chk.floor("bodies analysed for in-place hazards", tot["ip_bodies"], 24)
+    chk.extra["in_place_pairs_compared"] = tot["ip_pairs"]
     for c in cand:
         chk.distinct.add(("body", c))
     chk.floor("XTS bodies analysed", tot["bodies"], 24)
